@@ -24,7 +24,8 @@ EXPLANATION = "exhaustive sub-domains: permutations x drain masks up to n=6/7; r
 ASSUMPTIONS = ["serial numbers are the integers 0..n-1, each arriving once unless the script says 'overwrite'"]
 FLOORS = {}
 SHARDS = {"quick": 12, "thorough": 14}
-CASE_FUEL = 300000
+def CASE_FUEL(case):
+    return 300000 if "long" not in case else 400 * case["long"][0] * 40
 
 
 class _Stop(Exception):
@@ -45,6 +46,17 @@ def g(ctx, what, fn, allowed=()):
 
 
 def run_reorder(case, ctx):
+    if "long" in case:
+        # a long run of held-back items released by one arrival (well beyond the interpreter's recursion limit)
+        n_, variant = case["long"]
+        rest = list(range(1, n_))
+        if variant == 1:
+            rest.reverse()
+        elif variant == 2:
+            rest = rest[n_ // 2:] + rest[:n_ // 2]
+        case = dict(case, perm=rest + [0])
+        ctx.label("long-held-back-run")
+        ctx.nontrivial = True
     perm, mask, end = case["perm"], case["mask"], case.get("end", "\n")
     n = len(perm)
     vk = case.get("vals") or [1]
@@ -267,7 +279,9 @@ def enum_ring():
 
 def enumerations(tier):
     n = 7 if tier == "thorough" else 6
-    return [("permutations-n<=%d-x-drain-masks" % n, enum_perms(n), True), ("ring-put/clear-len<=8-cap<=4", enum_ring, True)]
+    long_runs = [{"kind": "reorder", "long": [m, v], "mask": [0], "end": "\n"} for m in (1100, 1700) for v in (0, 1, 2)]
+    return [("permutations-n<=%d-x-drain-masks" % n, enum_perms(n), True), ("ring-put/clear-len<=8-cap<=4", enum_ring, True),
+            ("held-back-runs-of-1100-and-1700-items", lambda: iter(long_runs), True)]
 
 
 SCRIPT_OPS = ["put", "put", "put", "drain", "pflush", "bflush", "pclear", "put", "drain", "pflush"]
